@@ -325,5 +325,5 @@ def enum_small(tier):
 def parts():
     return [
         Part("small_enum", check, enumerate=enum_small, exhaustive=True),
-        Part("topologies", check, strategy=topo(), strategy_thorough=topo(max_comps=4, chains=(0, 1, 2, 3, 4, 5, 6)), budget={"quick": 2500, "thorough": 120000}),
+        Part("topologies", check, strategy=topo(), strategy_thorough=topo(max_comps=4, chains=(0, 1, 2, 3, 4, 5, 6)), budget={"quick": 2500, "thorough": 120000}, fuzz={"thorough": 20000}),
     ]
